@@ -31,6 +31,7 @@ FINDINGS = [
     ("F19", "C19", "`printbuf_memset` leaves no terminator / fills the whole allocation", "fixed c15115f (C19.R2)"),
     ("F20", "C13", "patch `remove`/`move` deletes by the escaped token", "fixed 7e4ba6f (reported by a seeding sub-agent, then C13.R6)"),
     ("F21", "C02", "NOZERO trims zeros out of the exponent: 1.5e+20 -> `1.5e+2`", "fixed 1d0a43b (reported by a seeding sub-agent, then C02.R6)"),
+    ("F22", "C13", "move / copy from `/a` to `/ab` refused: from/path overlap tested on the strings, not on reference tokens", "fixed 1b76f14 (found by C13.R7)"),
 ]
 
 out = []
@@ -76,8 +77,8 @@ for p in sorted(glob.glob(os.path.join(V, "evidence", "C*.json"))):
 
 out.append("""### 7.4 Independent seeded changes (sub-agents given only the property text and a scratch worktree)
 
-Two rounds, one change per property and round; the second-round agents were additionally told the one-line description of the
-first-round change for their property and asked for a different site and mechanism. Each change was confirmed by
+Three rounds, one change per property and round; the second- and third-round agents were additionally told the one-line
+descriptions of the earlier changes for their property and asked for a different site and mechanism. Each change was confirmed by
 `tools/verify_seed.sh` (demo passes on HEAD, patch builds, suite 25/25, demo fails with the patch) and run against the checks with
 `tools/run_seed.sh` (apply to /repo, check, `git checkout`); `tools/all_seeds.sh` re-runs all of them against the current checks.
 
@@ -95,15 +96,25 @@ S-c02 (C02.R5 exact class analysis of the emitter's conditions on the double), S
 S-c10b and S-c11b (C11.R7 sign-encoded length discipline), S-c12b (C12.R7 evaluation of the unescape routine on all short tokens),
 S-c16b (C16.X6: number tokens made transparent). Caught as submitted: the other 25. S-c15b and S-c13b were caught with a
 message that was imprecise; the rules were made to say what is wrong (C15.R2 exactness witness, C13.R2 prefix comparison).
-S-c16b is neutralised on the current HEAD by the fix its rule led to (see its meta.json). The developer mutants in
+S-c16b is neutralised on the current HEAD by the fix its rule led to (see its meta.json).
+
+Third round (20 changes): caught as submitted 9 (c06c, c07c, c09c, c11c, c12c, c14c, c16c, c17c, c18c, c19c count as one each;
+c10c by a rule written an hour before it arrived). Missed by the property's own check although another property's rule fired,
+fixed by sharing the rule: c01c (read-loop rule under C01), c04c (level-stack safety under C04), c05c (list slot rules under
+C05). Missed outright, new rules: c02c (C02.R1b byte-wise homomorphism of the escaping writer), c03c (library calls on the cursor
+are reads: C03.R10 / C04.R1), c08c (C08.R1f half-built object handed to a destructor), c13c (C13.R7 from/path overlap table,
+which also found F22), c15c (C15.R4 as a decision table), c20c (C20.R5 writer result reaches the caller). The general lesson of
+rounds 2 and 3: a clause of property X that is decided by a rule living under property Y must be *run* under X too, and a rule
+that evaluates a routine on one-element inputs says nothing about what the routine does to the next element. The developer mutants in
 `tools/selftest.py` (about 200, including behaviour-preserving variants that must stay silent) are the regression suite for the
 checkers themselves.
 
 ### 7.5 Honest limits
 
-* Literal token text (null / true / false / NaN / Infinity) is opaque. Number tokens are modelled exactly up to digit-run
-  collapsing with strtod / strtoll / strtoull taken at their ISO C contracts (`jcv/numtok.py`); whether libc converts an in-range
-  text to the right value is libc's. UTF-8 bit arithmetic and the `%.17g` text are value-level.
+* Number and literal tokens are modelled with the token buffer concrete (`jcv/numtok.py`): numbers exactly up to digit-run
+  collapsing with strtod / strtoll / strtoull at their ISO C contracts, literals (null / true / false / NaN) letter by letter with
+  strncmp / strncasecmp evaluated; the Infinity state (no buffer) stays under the reachability rule. Whether libc converts an
+  in-range text to the right value is libc's. UTF-8 bit arithmetic and the `%.17g` text are value-level.
 * Shape-class arguments (containers of 0..3 members, tables of 4..8 slots, nesting limit 2..4, conversion texts with zero runs of
   length 0..2, pointer tokens up to 5 characters over the 5 characters the routine distinguishes) rely on loop bodies being one piece
   of code; the evidence files say so. These rules evaluate the routine's IR with the partial evaluator on every member of a finite
